@@ -783,6 +783,8 @@ class Interp:
                 return getattr({"int": int, "bytes": bytes, "str": str, "dict": dict}[e.func.value.id], e.func.attr)(*args, **kw)
         if isinstance(e, ast.Call) and isinstance(e.func, ast.Name) and e.func.id in _PURE_BUILTINS and e.func.id not in env and not e.keywords:
             args = [self.ev(a, env, depth) for a in e.args]
+            if e.func.id == "bool" and len(args) == 1 and isinstance(args[0], Obj):
+                return bool(args[0])
             if e.func.id == "range" and any(a is None or isinstance(a, (ClassRef, Instance, str, bytes, list, dict, float)) for a in args):
                 raise TypeError("range() of a non-integer")
             if all(isinstance(a, (int, float, str, bytes, bytearray, bool, list, tuple, dict, range, set, frozenset, type(None), LazyGen)) for a in args):
